@@ -9,6 +9,7 @@ from hypothesis import strategies as st
 from lxml import etree
 
 from vlib import codegen as G
+from vlib import multixsd as M
 from vlib import schemas as S
 from vlib.core import Collector, Failure, exc_sig, hyp_campaign
 
@@ -16,7 +17,8 @@ ID = "C07"
 LEVEL = "exploration"
 RULE = ("Hypothesis draws a source set over a hostile name alphabet (Python keywords and builtins, names of the generated code's own "
         "imports, leading digits/underscores, dots and dashes, non-ASCII letters, names that collide after case conversion, "
-        "70-character names; hostile enumeration values) in three families - XML Schemas of the full SchemaSpec fragment, sets of "
+        "70-character names; hostile enumeration values) in four families - XML Schemas of the full SchemaSpec fragment, sets of 3-5 "
+        "schemas importing each other (type names recurring across namespaces, global elements named like types, Item next to Item1), sets of "
         "1-3 irregular well-formed XML samples, sets of 1-2 irregular JSON samples - and a point of the whole output-option space "
         "(structure style, compound fields incl. forced default name, wrapper fields, unnest, frozen/slots/eq/order/"
         "unsafe_hash/repr, docstring style, naming case and safe prefix for classes/fields/constants/modules/packages, relative "
@@ -164,6 +166,10 @@ def cases(draw, family):
     if family == "xsd":
         spec = draw(S.schema_specs(XOPTS))
         return {"family": "xsd", "spec": spec, "options": opts}
+    if family == "multi":
+        spec = draw(M.multi_specs(type_names=["Item", "item", "Item1", "class", "Class", "None", "NoneType1", "é1x", "foo-bar", "fooBar"],
+                                  field_names=["name", "value", "class", "def", "Value", "x1", "with.dot", "fooBar", "foo_bar"]))
+        return {"family": "multi", "mspec": spec, "options": opts}
     if family == "xml":
         # element/attribute names of one sample set stay distinct after case conversion, samples hold no mixed content and a local
         # name lives in one namespace: the generator's sample route merges such names into one class and then loses or duplicates
@@ -188,6 +194,11 @@ def cases(draw, family):
 
 def source_names(case):
     names = set()
+    if case["family"] == "multi":
+        for leaf in case["mspec"]["leaves"]:
+            names.update(leaf["types"])
+            names.update(f for fields in leaf["types"].values() for f, _, _ in fields)
+        return names
     if case["family"] == "xsd":
         spec = case["spec"]
         names.update(spec["types"])
@@ -243,7 +254,10 @@ def duplicate_bindings(path, text):
 
 def execute(case, col):
     fam, opts = case["family"], case["options"]
-    if fam == "xsd":
+    if fam == "multi":
+        sources = M.render(case["mspec"])
+        shown = "\n".join(f"--- {n}\n{t}" for n, t in sources.items())
+    elif fam == "xsd":
         xsd = S.render_xsd(case["spec"])
         try:
             etree.XMLSchema(etree.fromstring(xsd.encode()))
@@ -325,8 +339,8 @@ def execute(case, col):
 
 
 def plan(tier, seed):
-    n, nsh = {"quick": (1500, 5), "thorough": (30000, 32)}[tier]
-    return [{"family": fam, "n": n // (3 * nsh), "seed": seed * 1000 + 10 * i + k} for k, fam in enumerate(("xsd", "xml", "json")) for i in range(nsh)]
+    n, nsh = {"quick": (1500, 4), "thorough": (30000, 24)}[tier]
+    return [{"family": fam, "n": n // (4 * nsh), "seed": seed * 1000 + 10 * i + k} for k, fam in enumerate(("xsd", "xml", "json", "multi")) for i in range(nsh)]
 
 
 def run_shard(shard, col):
